@@ -189,7 +189,7 @@ CHECKS["C20"] = dict(
          "counterexample; crash points are replayed against real child processes through a wrapper executable (SIGKILL after the k-th "
          "message, injected algorithm error), evaluator exceptions, budget stops, and external/in-process pairs compared by hashing "
          "the complete evaluator traces; leftover processes are looked up in /proc.",
-    note="Quick: 3 crash points, 2 pairs (about 15 s); thorough: every crash point for three methods and 10 pairs; 60 s deadline = hang.",
+    note="Quick: 18 fault scenarios (kills after the k-th message, during the k-th evaluation, with redirected output, exit statuses, child errors) and 16 external/in-process pairs (masks, constraints, integer variables, large messages, restarts of one optimizer object, qualified back-end names, a launcher on PATH), about 30 s; thorough: every crash point for three methods and about 60 pairs; 120 s deadline = hang.",
     design="4 (C20)")
 
 NOT_APPLICABLE = {}
